@@ -18,6 +18,7 @@ import (
 	"strconv"
 	"strings"
 	"sync"
+	"sync/atomic"
 	"testing"
 	"time"
 
@@ -240,6 +241,99 @@ func checkOverlap(prop string, res *result) {
 		mu.Unlock()
 		if eb != nil || a.err != nil || fmt.Sprint(vb) != "2" || fmt.Sprint(a.v) != "1" || (got != "[{2 B} {1 A}]") {
 			res.add(prop, name, pa+" overlapping "+pb, fmt.Sprintf("call A returned (%v, %v), call B (%v, %v), the function saw (n, context) %s; want A: 1, B: 2, function calls [{2 B} {1 A}]", a.v, a.err, vb, eb, got))
+		}
+	}
+}
+
+// checkParallel: many invocations of ONE wrapped handler at the same time, each with values of its own in every position
+// (array and object form): a wrapper that keeps anything per handler instead of per call hands one caller another's values.
+// Nothing marks the moment between decoding and the call, so the schedule cannot be steered; the verdict is a value the
+// function actually received, which is wrong whenever it happens (and the absence of one is no proof).
+func checkParallel(prop string, res *result) {
+	workers, rounds := 16, 4000
+	if os.Getenv("VERIF_TIER") == "thorough" {
+		rounds = 60000
+	}
+	type mk struct {
+		name string
+		h    jrpc2.Handler
+		form func(n int, obj bool) string
+	}
+	var bad atomic.Int64
+	var first atomic.Value
+	chk := func(ctx context.Context, vals ...int) {
+		want, _ := ctx.Value(ctxTag{}).(int)
+		for _, v := range vals {
+			if v != want {
+				if bad.Add(1) == 1 {
+					first.Store(fmt.Sprintf("function was called with %v, want every value %d", vals, want))
+				}
+				return
+			}
+		}
+	}
+	hs := []mk{
+		{"NewPos(func(ctx, int x6))", handler.NewPos(func(ctx context.Context, a, b, c, d, e, f int) (int, error) {
+			chk(ctx, a, b, c, d, e, f)
+			return a, nil
+		}, "a", "b", "c", "d", "e", "f"),
+			func(n int, obj bool) string {
+				if obj {
+					return fmt.Sprintf(`{"a":%d,"b":%d,"c":%d,"d":%d,"e":%d,"f":%d}`, n, n, n, n, n, n)
+				}
+				return fmt.Sprintf(`[%d,%d,%d,%d,%d,%d]`, n, n, n, n, n, n)
+			}},
+		{"New(func(ctx, S3))", handler.New(func(ctx context.Context, v struct{ A, B, C int }) (int, error) {
+			chk(ctx, v.A, v.B, v.C)
+			return v.A, nil
+		}),
+			func(n int, obj bool) string {
+				if obj {
+					return fmt.Sprintf(`{"a":%d,"b":%d,"c":%d}`, n, n, n)
+				}
+				return fmt.Sprintf(`[%d,%d,%d]`, n, n, n)
+			}},
+		{"New(func(ctx, *S3))", handler.New(func(ctx context.Context, v *struct{ A, B, C int }) (int, error) {
+			chk(ctx, v.A, v.B, v.C)
+			return v.A, nil
+		}),
+			func(n int, obj bool) string {
+				if obj {
+					return fmt.Sprintf(`{"a":%d,"b":%d,"c":%d}`, n, n, n)
+				}
+				return fmt.Sprintf(`[%d,%d,%d]`, n, n, n)
+			}},
+	}
+	if prop == "C16" {
+		hs = hs[:1]
+	} else {
+		hs = hs[1:]
+	}
+	for _, m := range hs {
+		bad.Store(0)
+		var wg sync.WaitGroup
+		var wrongRet atomic.Int64
+		for w := 1; w <= workers; w++ {
+			wg.Add(1)
+			go func(w int) {
+				defer wg.Done()
+				ctx := context.WithValue(context.Background(), ctxTag{}, w)
+				req := [2]*jrpc2.Request{mkReq(m.form(w, false)), mkReq(m.form(w, true))}
+				for i := 0; i < rounds; i++ {
+					v, err := m.h(ctx, req[i%2])
+					if err != nil || fmt.Sprint(v) != fmt.Sprint(w) {
+						wrongRet.Add(1)
+					}
+				}
+			}(w)
+		}
+		wg.Wait()
+		res.Evaluations += workers * rounds
+		res.Classes["parallel"] += workers * rounds
+		if n := bad.Load(); n > 0 {
+			res.add(prop, m.name, m.form(1, false), fmt.Sprintf("%d of %d concurrent calls: %v", n, workers*rounds, first.Load()))
+		} else if n := wrongRet.Load(); n > 0 {
+			res.add(prop, m.name, m.form(1, false), fmt.Sprintf("%d of %d concurrent calls returned an error or another call's result", n, workers*rounds))
 		}
 	}
 }
@@ -1031,10 +1125,12 @@ func TestAdapt(t *testing.T) {
 				checkKind(c, res)
 			}
 			checkOverlap("C15", res)
+			checkParallel("C15", res)
 			res.Samples = append(res.Samples, "func(context.Context, S2) (any, error) with params [7,\"x\"], strict, AllowArray", "func(context.Context, ...[]int) int")
 		}
 		if which == "C16" {
 			checkOverlap("C16", res)
+			checkParallel("C16", res)
 			checkPosUnnamed(res)
 			for _, c := range tab.Pos {
 				res.Cells++
